@@ -572,6 +572,66 @@ def poscar_read(ctx):
     ctx.floor('POSCAR-READ', n, 4)
 
 
+def poscar_roundtrip(ctx):
+    """writer (dump/poscar) composed with reader (load/poscar) on model systems: what is read back is the system, atoms grouped by type"""
+    from . import c07
+    from ..iomodel import text_to_lines
+    from ..symx import NP_FUNCS
+    wfn = ctx.fn(c07.PD, 'dump')
+    rfn = ctx.fn(LP, 'load')
+    loc = LP + '::load'
+    n = 0
+    for tag, atype, natypes, symbols, style in (('direct, two types mixed order', [2, 1, 2, 1, 1], 2, ('Al', 'Cu'), 'direct'), ('Cartesian, scale factor, no symbols', [1, 2, 2], 2, (None, None), 'Cartesian'),
+                                                ('direct, middle type unused', [3, 1, 3, 1], 3, ('Al', 'Cu', 'Ni'), 'Direct'), ('cartesian, lowest type unused, no symbols', [2, 3, 3], 3, (None, None, None), 'cartesian')):
+        n += 1
+        system = c07.PoscarSys(atype, natypes, symbols)
+        sc = sp.Symbol('scale', positive=True)
+        ev = SymEval(module_aliases(ctx.mod(c07.PD)))
+        ev.text_mode = True
+        ev.np_override = {'numpy.unique': c07._np_unique}
+        try:
+            paths = [p for p in ev.run_fn(wfn, [system], dict(header='HDR', coordstyle=style, box_scale=sc, float_format=c07.FF)) if p.done == 'return']
+            ctx.need(len(paths) == 1, 'poscar.dump does not reduce to one path (%s)' % tag)
+            lines = text_to_lines(paths[0].ret, c07.render)
+        except WouldRaise as e:
+            ctx.ob('POSCAR-ROUNDTRIP', loc, '%s: the writer runs to completion' % tag, False, str(e), node=wfn, key=tag + ' writes')
+            continue
+        except Opaque as e:
+            raise AnalysisError('poscar round trip (%s), writer: %s' % (tag, e))
+        rec = []
+        ev2 = SymEval(module_aliases(ctx.mod(LP)))
+        ev2.np_override = {'numpy.array': np_array_typed}
+        ev2.globals = dict(_ctor_globals(rec), uber_open_rmode=lambda d: LineFile(lines), **_builtins())
+        try:
+            paths = [p for p in ev2.run_fn(rfn, ['POSCAR'], {}) if p.done == 'return']
+        except WouldRaise as e:
+            ctx.ob('POSCAR-ROUNDTRIP', loc, '%s: the reader accepts what the writer wrote' % tag, False, str(e), node=rfn, key=tag + ' reads')
+            continue
+        except Opaque as e:
+            raise AnalysisError('poscar round trip (%s), reader: %s' % (tag, e))
+        ctx.need(len(paths) == 1, 'poscar.load does not reduce to one path (%s)' % tag)
+        box = [r for r in rec if r.kind == 'Box']
+        at = [r for r in rec if r.kind == 'Atoms']
+        sy = [r for r in rec if r.kind == 'System']
+        V = system.box.vects
+        okb = len(box) == 1 and all(equal(box[0].kw.get(k), V[i], deep=False) for i, k in enumerate(('avect', 'bvect', 'cvect')))
+        ctx.ob('POSCAR-ROUNDTRIP', loc, '%s: the cell vectors read back are those of the system (scale factor divided out by the writer, multiplied in by the reader)' % tag, okb, node=rfn, key=tag + ' cell')
+        order = [i for t in range(1, natypes + 1) for i, a in enumerate(atype) if a == t]   # documented normalisation: atoms grouped by type
+        prop = at[0].kw.get('prop') if at else None
+        okt = isinstance(prop, dict) and [int(x) for x in np.ravel(prop.get('atype', []))] == [atype[i] for i in order]
+        ctx.ob('POSCAR-ROUNDTRIP', loc, '%s: every atom keeps its type (types with no atoms keep their place in the counts line)' % tag, bool(okt),
+               'read types %s, written %s' % (None if not isinstance(prop, dict) else [int(x) for x in np.ravel(prop.get('atype', []))], [atype[i] for i in order]), node=rfn, key=tag + ' types')
+        cart = style[0] in 'cCkK'
+        src = system.P if cart else system.Sc
+        okp = isinstance(prop, dict) and np.shape(prop.get('pos')) == (len(atype), 3) and equal(prop['pos'], np.array([src[i] for i in order], dtype=object), deep=False) \
+            and len(sy) == 1 and sy[0].kw.get('scale') is (not cart)
+        ctx.ob('POSCAR-ROUNDTRIP', loc, '%s: every atom keeps its position (%s)' % (tag, 'absolute' if cart else 'box-relative'), bool(okp), node=rfn, key=tag + ' positions')
+        wsym = list(symbols) if None not in symbols else [None] * max(atype)
+        oks = len(sy) == 1 and list(sy[0].kw.get('symbols') or []) == wsym
+        ctx.ob('POSCAR-ROUNDTRIP', loc, '%s: element symbols survive when the system has them' % tag, oks, str(sy[0].kw.get('symbols') if sy else None), node=rfn, key=tag + ' symbols')
+    ctx.floor('POSCAR-ROUNDTRIP', n, 4)
+
+
 def api(ctx):
     for rel in (LD, LDD, LT, LP):
         issues, stats = apicompat.scan(ctx.mod(rel))
@@ -583,4 +643,4 @@ def run(ctx):
     ctx.explanation = ('C08: the four readers are evaluated by the analyser on model files (token lines with symbolic numbers, data frames with explicit row order); the resulting '
                        'constructor calls and stored arrays are compared with what the writers of C07 put there: cell, counts, types, positions with image flags applied per atom id, '
                        'units re-applied, section offsets, refusals of incomplete files; writer and reader column tables are compared for every atom_style. Not decided: decimal parsing.')
-    ctx.run_rules([tables_agree, data_read, table_read, dump_read, poscar_read, api])
+    ctx.run_rules([tables_agree, data_read, table_read, dump_read, poscar_read, poscar_roundtrip, api])
